@@ -259,6 +259,24 @@ def build_decode_any(run, prop, E, cd):
             E.assume(z3.And(n >= 0, n <= 2048))
             return {"data": models.fresh_seq(E, "d", "bytes", n, 0, 255), "out": {}}
         want_ver = int(base[4])
+        # the layout's acceptance condition, written from the statement (version nibble, length by modulation bits, NOPE carries no burst)
+        if has_mts(name):
+            blen_, defined = z3.IntVal(0), z3.BoolVal(False)
+            for mod_ in range(16):
+                bl_ = P.burst_len(mod_)
+                if bl_ is not None:
+                    blen_ = z3.If(fields["mod"] == mod_, bl_, blen_)
+                    defined = z3.Or(defined, fields["mod"] == mod_)
+            exact = not batched and name not in ("PDUv2Rx", "PDUv2Tx")
+            body = z3.If(fields["nope"] == 1, (n == hlen) if exact else z3.BoolVal(True),
+                         z3.And(defined, (n == hlen + blen_) if exact else (n >= hlen + blen_)))
+            accept = z3.And(n >= hlen, body)
+        elif name == "PDUv0Rx":
+            accept = n >= hlen + 148
+        else:
+            accept = n >= hlen
+        if not batched:
+            accept = z3.And(n >= 1, ver == want_ver, accept)
         if name in ("PDUv2Rx", "PDUv2Tx"):
             # the trailing Sequence field is covered by C16's contract: here the decoder is cut after the fixed part by decoding a PDU
             # whose batch list is empty, i.e. inputs that end right after the first burst (anything else goes to the Sequence)
@@ -270,6 +288,12 @@ def build_decode_any(run, prop, E, cd):
             if out[0] == "raise":
                 obls.append(Obligation(prop, "trxd_proto." + name, "rejects_only_with_DecodeError", p.pc, z3.BoolVal(issubclass(out[1].cls, cd.DecodeError)), kind="noexc",
                                        case=cs + "," + out[1].cls.__name__, where="src/target/trx_toolkit/trxd_proto.py", tag=tag))
+                a = getattr(out[1], "args", ()) or ()
+                from_seq = len(a) >= 2 and isinstance(obj.STRUCT[-1], cd.Sequence.F) and a[1] is obj.STRUCT[-1]
+                if not from_seq:
+                    # acceptance depends on the version nibble, the modulation bits and the length only: reserved bits/octets are ignored
+                    obls.append(Obligation(prop, "trxd_proto." + name, "rejects_only_what_the_layout_rejects_reserved_bits_ignored", p.pc, z3.Not(accept), kind="post",
+                                           case=cs, where="src/target/trx_toolkit/trxd_proto.py", tag=tag))
                 continue
             nok += 1
             dec, cons = ctx["out"], out[1]
@@ -278,6 +302,7 @@ def build_decode_any(run, prop, E, cd):
                 obls.append(Obligation(prop, "trxd_proto." + name, clause, p.pc, goal, kind="post", case=cs, where="src/target/trx_toolkit/trxd_proto.py", tag=tag))
             if not batched:
                 ob("accepts_only_its_own_version_nibble", ver == want_ver)
+            ob("accepts_only_what_the_layout_accepts", accept)
             for fname, term in fields.items():
                 got = dec.get(fname)
                 ob("decoded_%s_per_layout_reserved_bits_ignored" % fname, Z(got) == term if isinstance(got, (int, SInt)) else z3.BoolVal(False))
@@ -413,6 +438,41 @@ def witness(o, model):
     return t
 
 
+def layout_accepts(name, data):
+    """statement-level acceptance of an octet string by a PDU definition (native oracle for the replay; independent of codec.py)"""
+    base, batched = name.split(".")[0], "." in name
+    n = len(data)
+    if not batched and (n < 1 or data[0] >> 4 != int(base[4])):
+        return False
+    if base == "PDUv0Rx":
+        return n >= 8 + 148
+    if base in ("PDUv0Tx", "PDUv1Tx"):
+        return n >= 6
+    hlen = 11 if base == "PDUv1Rx" else (8 if batched else 12)
+    if n < hlen:
+        return False
+    m = data[8] if base == "PDUv1Rx" else data[2]
+    bl = 0 if m >> 7 else P.burst_len((m >> 3) & 15)
+    if bl is None:
+        return False
+    if base == "PDUv1Rx":
+        return n == hlen + bl
+    if batched:
+        return n >= hlen + bl
+    rest = data[hlen + bl:] if n >= hlen + bl else None
+    if rest is None:
+        return False
+    while rest:                      # batched sub-PDUs tile the rest exactly
+        if len(rest) < 8:
+            return False
+        m = rest[2]
+        bl = 0 if m >> 7 else P.burst_len((m >> 3) & 15)
+        if bl is None or len(rest) < 8 + bl:
+            return False
+        rest = rest[8 + bl:]
+    return True
+
+
 def replay(payload):
     f = payload["inputs"]
     what = f.get("what")
@@ -464,11 +524,15 @@ def replay(payload):
     if what == "decode":
         name = f["name"]
         pdu = get(name)(check_len=False) if "." in name else get(name)()
+        data = bytes(f["data"])
+        want = layout_accepts(name, data)
         try:
-            pdu._from_bytes({}, bytes(f["data"]))
-            return {"confirmed": False, "observed": "accepted", "expected": "accepted or DecodeError", "note": "field comparison is done by the verifier"}
-        except cd.DecodeError:
-            return {"confirmed": False, "observed": "DecodeError", "expected": "accepted or DecodeError"}
+            pdu._from_bytes({}, data)
+            return {"confirmed": not want, "observed": "accepted", "expected": "accepted" if want else "DecodeError (the documented layout rejects these octets)",
+                    "note": "field comparison is done by the verifier"}
+        except cd.DecodeError as e:
+            return {"confirmed": want, "observed": "DecodeError%r" % (tuple(str(a)[:60] for a in e.args),),
+                    "expected": "accepted: version nibble, modulation bits and length are right; reserved bits/octets are to be ignored" if want else "DecodeError"}
         except Exception as e:
             return {"confirmed": True, "observed": "raises %s" % type(e).__name__, "expected": "only DecodeError"}
     if what == "cross":
